@@ -454,15 +454,31 @@ Fixpoint parse_digits (base:Z) (l:list N) (acc:Z) : option Z :=
 Definition prefix_letter (base:Z) (c:N) : bool :=
   let lc := if ((65 <=? c) && (c <=? 90))%N then (c + 32)%N else c in
   ((base =? 16) && N.eqb lc 120) || ((base =? 8) && N.eqb lc 111) || ((base =? 2) && N.eqb lc 98).
+Definition has_prefix (base:Z) (r:list N) : bool := match r with a :: c :: (d :: r') => N.eqb a 48 && prefix_letter base c | _ => false end.
 Definition drop_prefix (base:Z) (r:list N) : list N :=
   match r with a :: c :: (d :: r') => if N.eqb a 48 && prefix_letter base c then d :: r' else r | _ => r end.
-Definition parse_unsigned (r:list N) (base:Z) : option Z := match drop_prefix base r with [] => None | ds => parse_digits base ds 0 end.
+(* digits with single underscores BETWEEN them ("1_000"; one may also follow the prefix: "0x_ff"); st: 0 = at the start, 1 = after a digit,
+   2 = after an underscore, 3 = after the prefix *)
+Fixpoint scan (base:Z) (l:list N) (acc:Z) (st:nat) : option Z :=
+  match l with
+  | [] => if Nat.eqb st 1 then Some acc else None
+  | c :: r => if N.eqb c 95 then (if Nat.eqb st 1 || Nat.eqb st 3 then scan base r acc 2%nat else None)
+              else match digit_val c with Some d => if d <? base then scan base r (acc * base + d) 1%nat else None | None => None end
+  end.
+Definition parse_unsigned (r:list N) (base:Z) : option Z := scan base (drop_prefix base r) 0 (if has_prefix base r then 3%nat else 0%nat).
+(* base 0: the prefix chooses 16 / 8 / 2; without one the text is decimal, and a decimal that starts with 0 must BE zero ("00", "0_0"; not "01") *)
+Definition parse_unsigned0 (r:list N) : option Z :=
+  if has_prefix 16 r then parse_unsigned r 16 else if has_prefix 8 r then parse_unsigned r 8 else if has_prefix 2 r then parse_unsigned r 2
+  else match scan 10 r 0 0%nat with
+       | Some n => match r with c :: _ => if N.eqb c 48 && negb (n =? 0) then None else Some n | [] => None end
+       | None => None end.
 Definition parse_int (s:list N) (base:Z) : option Z :=
+  let pu r := if base =? 0 then parse_unsigned0 r else parse_unsigned r base in
   match s with
-  | c :: r => if N.eqb c 45 then match parse_unsigned r base with Some n => Some (- n) | None => None end
-              else if N.eqb c 43 then parse_unsigned r base else parse_unsigned s base
+  | c :: r => if N.eqb c 45 then match pu r with Some n => Some (- n) | None => None end
+              else if N.eqb c 43 then pu r else pu s
   | [] => None end.
-Definition simple_numeral (s:list N) : bool := forallb (fun c => match digit_val c with Some _ => true | None => N.eqb c 45 || N.eqb c 43 end) s.
+Definition simple_numeral (s:list N) : bool := forallb (fun c => match digit_val c with Some _ => true | None => N.eqb c 45 || N.eqb c 43 || N.eqb c 95 end) s.
 (* a printable ASCII character that is no digit, letter, sign or underscore: no spelling of an integer in any base contains one *)
 Definition hopeless_numeral (s:list N) : bool :=
   existsb (fun c => let z := Z.of_N c in (33 <=? z) && (z <=? 126) && negb (match digit_val c with Some _ => true | None => false end) && negb (N.eqb c 45 || N.eqb c 43 || N.eqb c 95)) s.
@@ -478,7 +494,10 @@ Definition bi_integer (sp:span) (argv:list value) : Comp value :=
       if (2 <=? b) && (b <=? 36) then
         if simple_numeral s then match parse_int s b with Some n => Ret (VInt n) | None => raise c_value sp end
         else if hopeless_numeral s then raise c_value sp else raise c_unmodelled sp
-      else if (b =? 0) || (2147483648 <=? Z.abs b) then raise c_unmodelled sp      (* base 0: the literal prefixes; a base the host cannot take as a C integer *)
+      else if b =? 0 then
+        if simple_numeral s then match parse_int s 0 with Some n => Ret (VInt n) | None => raise c_value sp end
+        else if hopeless_numeral s then raise c_value sp else raise c_unmodelled sp
+      else if 2147483648 <=? Z.abs b then raise c_unmodelled sp      (* a base the host cannot take as a C integer *)
       else raise c_value sp                                                       (* int(): base must be >= 2 and <= 36, or 0 *)
   | [VStr _; _] => raise c_type sp
   | _ => raise c_type sp end.
@@ -488,11 +507,11 @@ Definition bi_integer (sp:span) (argv:list value) : Comp value :=
 Fixpoint split_dots (l cur:list N) : list (list N) :=
   match l with [] => [rev cur] | c :: r => if N.eqb c 46 then rev cur :: split_dots r [] else split_dots r (c :: cur) end.
 Definition float_in_base (s:list N) (b:Z) : FloatText.ptext :=
-  if existsb (fun c => (127 <? c)%N || N.eqb c 95 || ((c <? 32)%N && negb (FloatText.is_space c))) s then FloatText.PUnmodelled
-  else if b =? 0 then FloatText.PUnmodelled
+  if existsb (fun c => (127 <? c)%N || ((c <? 32)%N && negb (FloatText.is_space c))) s then FloatText.PUnmodelled
   else
     let go (ip fp:list N) :=
-      if negb ((2 <=? b) && (b <=? 36)) then FloatText.PBad else
+      if (b =? 0) && negb (Nat.eqb (length fp) 0) then FloatText.PBad else          (* 0 ** len(frac) = 0: ZeroDivisionError *)
+      if negb ((b =? 0) || ((2 <=? b) && (b <=? 36))) then FloatText.PBad else
       match parse_int (ip ++ fp) b with
       | None => FloatText.PBad
       | Some n =>
